@@ -374,6 +374,33 @@ func (p *pparser) pipe() stream.Stream[pv] {
 	case "lc":
 		r := p.int()
 		return p.pipe().WithAdditionalLifecycle(&probeLc{w: w, r: r})
+	case "lcc":
+		// a CLOSE-ONLY lifecycle element (NewLifecycle(nil, close)) with id r, followed by an ordinary probe element r+1000:
+		// whenever the companion's Open was attempted, the close-only element had been opened (trivially) and is owed
+		// exactly one Close (SPEC cases only)
+		r := p.int()
+		inner := p.pipe()
+		return inner.WithAdditionalLifecycle(stream.NewLifecycle(nil, func() { w.ev(r, 'C') })).
+			WithAdditionalLifecycle(&probeLc{w: w, r: r + 1000})
+	case "srcc":
+		// a source made of a bare provider function plus a CLOSE-ONLY option (NewSimpleStream(f, WithCloseFuncOption)),
+		// id r, under an ordinary probe element r+1000
+		r := p.int()
+		xs, err := parseInts(p.next())
+		if err != nil && p.err == nil {
+			p.err = err
+		}
+		i := 0
+		return stream.NewSimpleStream(func(ctx context.Context) (pv, error) {
+			if ctx.Err() != nil {
+				return pv{}, ctx.Err()
+			}
+			if i >= len(xs) {
+				return pv{}, io.EOF
+			}
+			i++
+			return pv{I: xs[i-1]}, nil
+		}, stream.WithCloseFuncOption(func() { i = 0; w.ev(r, 'C') })).WithAdditionalLifecycle(&probeLc{w: w, r: r + 1000})
 	case "lock":
 		// WithLockWhileMaterializing over a case-wide mutex (SPEC / ASYNC cases only: not a resource of the Lean model)
 		r := p.int()
@@ -524,6 +551,18 @@ func (p *pparser) pipe() stream.Stream[pv] {
 	case "sample":
 		n := p.int()
 		return p.pipe().RandomSample(n) // collector-backed stream: its Open materialises the source
+	case "dirfile", "rdirfile":
+		// StreamFromFile over a path that is a DIRECTORY: whatever the provider answers (an Open error, an error on the
+		// first read), no descriptor may stay open afterwards (leak=)
+		d, derr := os.MkdirTemp("", "shpanverif-dir-*")
+		if derr != nil {
+			p.err = derr
+			return stream.Empty[pv]()
+		}
+		p.tmpFiles = append(p.tmpFiles, d)
+		return stream.MapWithErr(file.StreamFromFile(d, t == "rdirfile"), func(b []byte) (pv, error) {
+			return pv{I: int64(len(b))}, nil
+		})
 	case "file", "rfile":
 		// StreamFromFile over a temp file with one number per line (file provider; descriptor leaks show as leak=)
 		xs, err := parseInts(p.next())
@@ -802,7 +841,7 @@ func execPipe(caseText string) (obs string) {
 	s := pp.pipe()
 	defer func() {
 		for _, f := range pp.tmpFiles {
-			os.Remove(f)
+			os.RemoveAll(f)
 		}
 	}()
 	if pp.err != nil || pp.pos != len(pp.toks) {
